@@ -1,6 +1,7 @@
 /- Driver for C15: validator status model replay + "deactivated only for a genuine miss" monitors. -/
 import BandVerif.Common.Driver
 import BandVerif.Model.ValidatorStatus
+import BandVerif.Model.FeedsSubmit
 import BandVerif.Generated.Errors
 
 open Lean BandVerif BandVerif.VStatus
@@ -35,6 +36,46 @@ def step (s : St) (j : Json) : Except String (St × Json × List Fired) := do
     if ierr == "" && (pre.active || (!pre.sinceZero && pre.since + pen > now)) then
       fired := [{ name := "activated_before_penalty_elapsed", detail := mkObj [("since", ji pre.since), ("penalty", ji pen), ("now", ji now), ("wasActive", jb pre.active)] }]
     pure (st', mkObj [("err", js code), ("status", vsJson s')], fired)
+  | "submitPrices" =>
+    -- feeds MsgSubmitSignalPrices: the stored price list after the real handler against Model/FeedsSubmit.lean
+    let feeds ← jstrList j "feeds"
+    let parseVP : Json → Except String FeedsSubmit.VP := fun e => match e with
+      | .arr #[a, b, c, d, f] => do pure ⟨← asNat a, ← asStr b, ← asNat c, ← asInt d, ← asInt f⟩
+      | _ => throw "bad price entry"
+    let prev ← (← jarr j "prev").mapM parseVP
+    let msg ← (← jarr j "msg").mapM fun e => match e with
+      | .arr #[a, b, c] => do pure ((← asStr a), (← asNat b), (← asNat c))
+      | _ => throw "bad msg entry"
+    let now ← jint j "now"
+    let height ← jint j "height"
+    let r := FeedsSubmit.submit feeds prev msg (← jint j "msgTs") now height (← jint j "cooldown") (← jint j "disc") (← jbool j "required")
+    let vpJson : FeedsSubmit.VP → Json := fun v => jl [jn v.status, js v.sid, jn v.price, ji v.ts, ji v.bh]
+    let ilist ← (← jarr out "list").mapM parseVP
+    let mout := match r with
+      | .ok l => mkObj [("err", js ""), ("list", jl (l.map vpJson))]
+      | .error e => mkObj [("err", js (match e with
+          | .tooLarge => "tooLarge" | .notRequired => "notRequired" | .badTimestamp => "badTimestamp"
+          | .notSupported => "notSupported" | .tooEarly => "tooEarly")), ("list", jl (prev.map vpJson))]
+    let mut fired : List Fired := []
+    if (← jstr out "err") == "" then
+      -- an accepted price carries the time and height of its block (freshness and miss detection read this timestamp)
+      for (sid, _, _) in msg do
+        match ilist.find? (·.sid == sid) with
+        | some v =>
+          if v.ts ≠ now || v.bh ≠ height then
+            fired := fired ++ [{ name := "accepted_price_not_stamped_with_block_time", detail := mkObj [("signal", js sid), ("storedTs", ji v.ts), ("blockTime", ji now),
+              ("storedHeight", ji v.bh), ("height", ji height)] }]
+        | none => fired := fired ++ [{ name := "accepted_price_not_stored", detail := mkObj [("signal", js sid)] }]
+      -- every stored entry sits at the position of its own signal in the current feed list
+      for (v, k) in ilist.zip (List.range ilist.length) do
+        if v.status ≠ 0 && feeds[k]? ≠ some v.sid then
+          fired := fired ++ [{ name := "stored_price_at_the_position_of_another_signal", detail := mkObj [("position", jn k), ("signal", js v.sid)] }]
+    else
+      -- a submission the handler's rules admit must not be rejected (grogu relies on them)
+      match r with
+      | .ok _ => fired := fired ++ [{ name := "admissible_price_submission_rejected", detail := mkObj [("err", js ((jstr out "err").toOption.getD ""))] }]
+      | .error _ => pure ()
+    pure (s, mout, fired)
   | "missReport" =>
     let v ← jnat j "val"
     let rt ← jint j "requestTime"
